@@ -29,7 +29,11 @@ use async_trait::async_trait;
 use parking_lot::RwLock;
 use rhai::Dynamic;
 
-use std::{collections::HashMap, sync::Arc};
+use std::{
+    collections::{hash_map::DefaultHasher, HashMap},
+    hash::{Hash, Hasher},
+    sync::Arc,
+};
 
 type EventCallback = fn(&mut CachedEnforcer, EventData);
 
@@ -124,6 +128,7 @@ impl CoreApi for CachedEnforcer {
 
     #[inline]
     fn add_function(&mut self, fname: &str, f: OperatorFunction) {
+        self.cache.clear();
         self.enforcer.add_function(fname, f);
     }
 
@@ -174,16 +179,19 @@ impl CoreApi for CachedEnforcer {
         &mut self,
         rm: Arc<RwLock<dyn RoleManager>>,
     ) -> Result<()> {
+        self.cache.clear();
         self.enforcer.set_role_manager(rm)
     }
 
     #[inline]
     async fn set_model<M: TryIntoModel>(&mut self, m: M) -> Result<()> {
+        self.cache.clear();
         self.enforcer.set_model(m).await
     }
 
     #[inline]
     async fn set_adapter<A: TryIntoAdapter>(&mut self, a: A) -> Result<()> {
+        self.cache.clear();
         self.enforcer.set_adapter(a).await
     }
 
@@ -201,6 +209,7 @@ impl CoreApi for CachedEnforcer {
 
     #[inline]
     fn set_effector(&mut self, e: Box<dyn Effector>) {
+        self.cache.clear();
         self.enforcer.set_effector(e);
     }
 
@@ -243,7 +252,13 @@ impl CoreApi for CachedEnforcer {
         ctx: EnforceContext,
         rvals: ARGS,
     ) -> Result<bool> {
-        let cache_key = rvals.cache_key();
+        // a context-qualified request is a different request
+        let cache_key = {
+            let mut hasher = DefaultHasher::new();
+            rvals.cache_key().hash(&mut hasher);
+            ctx.get_cache_key().hash(&mut hasher);
+            hasher.finish()
+        };
         let rvals = rvals.try_into_vec()?;
         #[allow(unused_variables)]
         let (authorized, cached, indices) =
@@ -309,6 +324,7 @@ impl CoreApi for CachedEnforcer {
 
     #[inline]
     fn build_role_links(&mut self) -> Result<()> {
+        self.cache.clear();
         self.enforcer.build_role_links()
     }
 
@@ -320,11 +336,13 @@ impl CoreApi for CachedEnforcer {
 
     #[inline]
     async fn load_policy(&mut self) -> Result<()> {
+        self.cache.clear();
         self.enforcer.load_policy().await
     }
 
     #[inline]
     async fn load_filtered_policy<'a>(&mut self, f: Filter<'a>) -> Result<()> {
+        self.cache.clear();
         self.enforcer.load_filtered_policy(f).await
     }
 
@@ -345,6 +363,7 @@ impl CoreApi for CachedEnforcer {
 
     #[inline]
     async fn clear_policy(&mut self) -> Result<()> {
+        self.cache.clear();
         self.enforcer.clear_policy().await
     }
 
@@ -356,6 +375,7 @@ impl CoreApi for CachedEnforcer {
 
     #[inline]
     fn enable_enforce(&mut self, enabled: bool) {
+        self.cache.clear();
         self.enforcer.enable_enforce(enabled);
     }
 
